@@ -46,15 +46,19 @@ TRUSTED_BASE = ["ASan/UBSan runtime of g++ 12 (what they can see: heap/stack/glo
                 "allocation counter: replaced operator new/delete + interposed malloc/calloc/realloc"]
 ASSUMPTIONS = ["memory safety of the compiled object code beyond the models' index/initialisation/overflow discipline is sanitizer-observed, not proved"]
 
-# every package with a model; the sanitizer variant is discovered from the package's own prop.py (see _pick_variant)
-AGGREGATE = ["C01", "C03", "C04", "C06a", "C06b", "C07", "C08", "C09", "C10", "C11", "C12", "C14", "C17", "C18", "C19", "C20"]
+# every package with a model (C05: the precondition-violating calls -- under ASan+UBSan they show that the contract check
+# stops the call BEFORE any out-of-range access); the sanitizer variants are discovered from the package's own prop.py (_variants)
+AGGREGATE = ["C01", "C03", "C04", "C05", "C06a", "C06b", "C07", "C08", "C09", "C10", "C11", "C12", "C14", "C17", "C18", "C19", "C20"]
 # quick tier: cases sampled per package (the thorough tier runs the package's whole quick AND thorough generators)
-QUICK_CASES = {"C01": 10000, "C03": 6000, "C04": 12000, "C06a": 12000, "C06b": 20000, "C07": 6000, "C08": 20000, "C09": 12000, "C10": 20000, "C11": 20000, "C12": 10000, "C14": 20000, "C17": 1500, "C18": 20000, "C19": 6000, "C20": 6000}
+QUICK_CASES = {"C05": 12000, "C01": 10000, "C03": 6000, "C04": 12000, "C06a": 12000, "C06b": 20000, "C07": 6000, "C08": 20000, "C09": 12000, "C10": 20000, "C11": 20000, "C12": 10000, "C14": 20000, "C17": 1500, "C18": 20000, "C19": 6000, "C20": 6000}
 QUICK_DEFAULT = 4000
 THOROUGH_CASES = 400000
 # C02 is THE sanitizer property: variants that a package marks thorough_only (too expensive for the package's own quick
 # tier) are still built and run here, on a sample, in the quick tier.  QUICK_SKIP: packages left to the thorough tier.
 QUICK_SKIP = set()
+# packages whose legs are compared by outcome class only (first token: ok / contract / crash ...): C05's legs name the exact
+# TETL_PRECONDITION site that fired, which is C05's business (site inventory); for C02 a contract is a contract
+CLASS_ONLY = {"C05"}
 
 
 def gen(tier, rng):
@@ -187,6 +191,11 @@ def _one_package(pid, tier, seed):
     for h in hs:
         exe, log = engine.build_harness(pid, h["name"], h["src"], h["flags"], h.get("compiler", "g++"))
         if exe is None:
+            # other checks build the same multi-part harnesses concurrently (shared /tmp part directories, harness sources
+            # being edited): one retry after a pause before the failure counts
+            time.sleep(20)
+            exe, log = engine.build_harness(pid, h["name"], h["src"], h["flags"], h.get("compiler", "g++"))
+        if exe is None:
             res["skipped"] = f"sanitizer harness {h['name']} does not compile: " + log[-400:]
             res["build_failed"] = True
             return res
@@ -206,6 +215,8 @@ def _one_package(pid, tier, seed):
             res["cases"] += 1
             if e.startswith("crash"):
                 res["crash"] += 1
+            if pid in CLASS_ONLY:
+                e, m = e.split(" ", 1)[0], m.split(" ", 1)[0]
             if e != m:
                 res["disagree"] += 1
                 if len(res["examples"]) < 3:
